@@ -14,6 +14,10 @@ FIXED = [
      "{ a { id } }\nquery Q { a { id } }\nfragment X on Missing { id }\nfragment Y on A { ...X ...Y ...Nope }\ntype T { x: Int }\n"),
     ("schema { query: Root } type Root { r: Root, __typename: Int, s: String } type Query { q: Int }",
      "{ r { r { __typename __schema { description } s { x } } } q }\nmutation { r }\nsubscription S { r }\n"),
+    ("interface Pet { name: String } type Dog implements Pet { name: String bark: Int } type Cat implements Pet { name: String meow: Int } type Query { pet: Pet f(n: Int!): Int }",
+     "query A($size: Int!) { ...F } query B { ...F } fragment F on Query { f(n: $size) }\n"),
+    ("interface Pet { name: String } type Dog implements Pet { name: String bark: Int } type Cat implements Pet { name: String meow: Int } type Query { pet: Pet f(n: Int!): Int }",
+     "query B { ...G } query A($size: Int!) { ...G } fragment G on Query { ...F } fragment F on Query { f(n: $size) pet { ...D ... on Cat { ...D } } } fragment D on Dog { bark }\n"),
     ("type Query { f: Missing, g: [Missing!]!, e: E, u: U } enum E { X } union U = Query",
      "{ f { x } g { y { z } } e { x } u { __typename __schema { types { name } } ... on Query { e } } }\n"),
 ]
